@@ -332,3 +332,31 @@ pub fn gen_script(rng: &mut Rng, len: usize, style: u64) -> Vec<Step> {
 // ---------------------------------------------------------------------------------------------
 // shared infrastructure of the `e2e` binary
 pub mod e2e_lib;
+pub mod static_rows;
+
+/// A byte string that differs from `v` in a way a sloppy comparison may ignore: ASCII case of one or
+/// all letters, surrounding blanks, one byte more or less.
+pub fn near_miss(rng: &mut Rng, v: &[u8]) -> Vec<u8> {
+    let mut o = v.to_vec();
+    let letters: Vec<usize> = (0..o.len()).filter(|i| o[*i].is_ascii_alphabetic()).collect();
+    match rng.below(8) {
+        0 | 1 if !letters.is_empty() => {
+            let i = letters[rng.below(letters.len() as u64) as usize];
+            o[i] ^= 0x20;
+        }
+        2 if !letters.is_empty() => o.make_ascii_uppercase(),
+        3 if !letters.is_empty() => {
+            o.make_ascii_lowercase();
+            if o == v {
+                o[letters[0]] ^= 0x20;
+            }
+        }
+        4 => o.push(b' '),
+        5 => o.insert(0, b' '),
+        6 if !o.is_empty() => {
+            o.pop();
+        }
+        _ => o.push(b'0'),
+    }
+    o
+}
